@@ -19,6 +19,10 @@ CHECKS = {
          'every boolean result is evaluated at <= 260 sample points per operation with exact arithmetic: membership = op(membership of operands), no point '
          'covered twice, |winding| <= 1; area identities among or/and/xor/not; chained operations feed results with slits back in',
          'points within 2 grid units of an operand edge are not judged; operands sampled from lattice polygon families', '7/C05'),
+ 'C11': ('exploration', 'reference-model monitor: the checker\'s own enumeration of the vector set vs get_count/get_offsets/get_extrema/apply_repetition/transform, under ASan+UBSan',
+         'all five repetition kinds on all five element kinds, with boundary counts 0/1, negative spacings, duplicates; copies compared field by field and '
+         'mutated to show independence from the original',
+         'empty lattices only checked for mutual consistency (ambiguity recorded in DESIGN.md); sampled repetitions', '7/C11'),
  'C12': ('exploration', 'region monitor (exact winding/area on the precision grid) + in-code progress hook H1 deciding termination in logical steps',
          'fracture pieces and slice bins are checked for vertex limit, copied attributes, exact area and exact membership (exactly one piece covers '
          'each interior sample point); the re-slicing loop is bounded by the hook',
